@@ -114,6 +114,7 @@ type Specs struct {
 	GhostFuncs  map[string]*GhostFunc
 	Axioms      []*Axiom
 	Files       []string
+	Depends     map[string][]string // property -> properties whose obligations it rests on (directive depends)
 }
 
 func NewSpecs() *Specs {
@@ -133,7 +134,7 @@ var keywords = map[string]bool{
 	"func": true, "requires": true, "ensures": true, "modifies": true, "trusted": true,
 	"inline": true, "maypanic": true, "panic_ensures": true, "loop": true, "pure": true,
 	"ghost": true, "axiom": true, "witness": true, "replay": true, "assert": true,
-	"nonilcheck": true, "props": true, "nilable": true, "crash_inv": true, "view": true, "opaque": true, "ghostcode": true, "dead": true,
+	"nonilcheck": true, "props": true, "nilable": true, "crash_inv": true, "view": true, "opaque": true, "ghostcode": true, "dead": true, "depends": true,
 }
 
 type directive struct {
@@ -254,6 +255,17 @@ func (s *Specs) ParseFile(path, pkgPath string) error {
 			case "crash_inv":
 				cur.CrashInv = append(cur.CrashInv, c)
 			}
+		case "depends":
+			// depends C01 C05 C11 : the check of C01 also decides the obligations labelled C05 / C11
+			f := strings.Fields(d.rest)
+			if len(f) < 2 {
+				return fmt.Errorf("%s:%d: depends: want 'depends Cxx Cyy ...'", d.file, d.line)
+			}
+			if s.Depends == nil {
+				s.Depends = map[string][]string{}
+			}
+			s.Depends[f[0]] = append(s.Depends[f[0]], f[1:]...)
+			cur = nil
 		case "dead":
 			// dead Get#1 opError#3 : these calls are on branches that cannot be taken in context
 			if cur == nil {
@@ -563,6 +575,34 @@ func labelProp(label string) string {
 func labelHasProp(label, prop string) bool {
 	for _, p := range strings.Split(labelProp(label), "+") {
 		if p == prop {
+			return true
+		}
+	}
+	return false
+}
+
+// covers: the property itself plus, transitively, the properties it depends on.
+func (s *Specs) covers(prop string) map[string]bool {
+	out := map[string]bool{prop: true}
+	work := []string{prop}
+	for len(work) > 0 {
+		p := work[0]
+		work = work[1:]
+		for _, q := range s.Depends[p] {
+			if !out[q] {
+				out[q] = true
+				work = append(work, q)
+			}
+		}
+	}
+	return out
+}
+
+// labelCounts: the label names the property or one it depends on.
+func (s *Specs) labelCounts(label, prop string) bool {
+	cov := s.covers(prop)
+	for _, p := range strings.Split(labelProp(label), "+") {
+		if cov[p] {
 			return true
 		}
 	}
